@@ -280,13 +280,15 @@ class Pat:
 # structural encoding of a match
 # ------------------------------------------------------------------------------------------
 class Enc:
-    def __init__(self, pat, ip, whole, limit):
+    """Structural encoding of one match.  Alternations / optional parts / repeats that contain capturing groups or
+    assertions are decided by path forks (ctx.choose), so that each path carries a plain conjunction of word equations
+    and RegLan memberships and group participation is a concrete fact on the path."""
+
+    def __init__(self, pat, ip):
         self.pat = pat
         self.ip = ip
         self.cons = []
-        self.groups = {}       # gid -> (flag term, text term, start term)
-        self.whole = whole     # term of the (possibly truncated) subject string
-        self.limit = limit
+        self.groups = {}       # gid -> (participates: bool, text term, start term)
 
     def fresh(self, base='rx'):
         return z3.String(fresh_name(base))
@@ -294,10 +296,21 @@ class Enc:
     def simple(self, items):
         return not self.pat.has_group(items) and not self.pat.has_assert(items)
 
-    def seq(self, items, left, right):
-        """encode sequence; left/right: context terms. returns (term, constraint)"""
+    def add(self, c):
+        self.cons.append(c)
+
+    def lit_or_var(self, items):
+        """a group-free, assertion-free run: a literal if it denotes exactly one string, else fresh var + membership"""
+        if all(op is sre_c.LITERAL for op, av in items) and not self.pat.icase:
+            return z3.StringVal(''.join(chr(av) for op, av in items))
+        v = self.fresh('p')
+        self.add(z3.InRe(v, self.pat.lang_items(items)))
+        return v
+
+    def seq(self, items, left, right_thunk):
+        """encode a sequence. left: term of everything before; right_thunk(): term of everything after this sequence
+        (resolved lazily).  returns list of part terms."""
         items = list(items)
-        # split into runs
         chunks = []
         run = []
         for it in items:
@@ -310,25 +323,29 @@ class Enc:
                 chunks.append(('one', it))
         if run:
             chunks.append(('run', run))
-        parts = [self.fresh('p') for _ in chunks]
-        cons = []
-        for i, (kind, payload) in enumerate(chunks):
-            l = z3.Concat(left, *parts[:i]) if i else left
-            r = z3.Concat(*parts[i + 1:], right) if i + 1 < len(parts) else right
-            if kind == 'run':
-                cons.append(z3.InRe(parts[i], self.pat.lang_items(payload)))
-            else:
-                cons.append(self.item(payload, parts[i], l, r))
-        term = z3.Concat(*parts) if len(parts) > 1 else (parts[0] if parts else z3.StringVal(''))
-        return term, z3.And(*cons) if cons else z3.BoolVal(True)
+        parts = []
+        pending_right = []     # (index, fn(right_term)) assertions needing the right context
 
-    def no_groups(self, items):
-        """constraint: every group inside items does not participate"""
-        cons = []
-        for gid in self.group_ids(items):
-            self.ensure_group(gid)
-            cons.append(z3.Not(self.groups[gid][0]))
-        return z3.And(*cons) if cons else z3.BoolVal(True)
+        def cat(ts):
+            ts = [t for t in ts]
+            if not ts:
+                return z3.StringVal('')
+            return z3.Concat(*ts) if len(ts) > 1 else ts[0]
+        for i, (kind, payload) in enumerate(chunks):
+            l = cat([left] + parts) if parts else left
+            if kind == 'run':
+                parts.append(self.lit_or_var(payload))
+            else:
+                idx = len(parts)
+                holder = {}
+
+                def rt(idx=idx, holder=holder):
+                    # right context of chunk idx = later parts of this sequence + outer right
+                    return cat(holder['later']() + [right_thunk()])
+                sub_parts = self.item(payload, l, rt)
+                holder['later'] = (lambda idx=idx: parts[idx + 1:])
+                parts.append(cat(sub_parts) if sub_parts else z3.StringVal(''))
+        return parts
 
     def group_ids(self, items):
         out = []
@@ -344,93 +361,97 @@ class Enc:
                 out.extend(self.group_ids(av[2]))
         return out
 
-    def ensure_group(self, gid):
-        if gid not in self.groups:
-            self.groups[gid] = (z3.Bool(fresh_name(f'g{gid}_on')), self.fresh(f'g{gid}'), z3.IntVal(-1))
+    def off(self, items):
+        for gid in self.group_ids(items):
+            if gid not in self.groups:
+                self.groups[gid] = (False, z3.StringVal(''), z3.IntVal(-1))
 
-    def item(self, it, part, left, right):
+    def item(self, it, left, right_thunk):
+        """returns list of part terms; may fork"""
         op, av = it
+        ctx = self.ip.ctx
         if op is sre_c.SUBPATTERN:
             gid, add, dele, sub = av
             if add or dele:
                 raise Unsupported("inline flags")
-            t, c = self.seq(sub, left, right)
-            cons = [part == t, c]
+            parts = self.seq(sub, left, right_thunk)
             if gid is not None:
-                self.ensure_group(gid)
-                flag, txt, at = self.groups[gid]
-                self.groups[gid] = (flag, txt, z3.Length(left))
-                cons += [flag, txt == part]
-            return z3.And(*cons)
+                txt = z3.Concat(*parts) if len(parts) > 1 else (parts[0] if parts else z3.StringVal(''))
+                self.groups[gid] = (True, txt, z3.Length(left))
+            return parts
         if op is sre_c.BRANCH:
             alts = av[1]
-            ds = []
-            for k, alt in enumerate(alts):
-                t, c = self.seq(alt, left, right)
-                others = [a for j, a in enumerate(alts) if j != k]
-                off = [self.no_groups(o) for o in others]
-                ds.append(z3.And(part == t, c, *off))
-            return z3.Or(*ds)
+            k = ctx.choose(len(alts), 'rx-alt')
+            for j, a in enumerate(alts):
+                if j != k:
+                    self.off(a)
+            return self.seq(alts[k], left, right_thunk)
         if op in (sre_c.MAX_REPEAT, sre_c.MIN_REPEAT):
             lo, hi, sub = av
-            if self.pat.has_assert(sub) and not (lo == 0 and hi == 1):
-                # assertions inside repeated bodies: ignore them in earlier iterations (over-approximation)
-                pass
-            zero = z3.And(part == z3.StringVal(''), self.no_groups(sub))
             if lo == 0 and hi == 1:
-                t, c = self.seq(sub, left, right)
-                return z3.Or(zero, z3.And(part == t, c))
-            # general repeat: prefix iterations (language only) + last iteration (structural)
+                if ctx.choose(2, 'rx-opt') == 1:
+                    self.off(sub)
+                    return []
+                return self.seq(sub, left, right_thunk)
+            # general repeat: earlier iterations as a language (assertions dropped: over-approximation),
+            # last iteration structural
+            if lo == 0 and ctx.choose(2, 'rx-rep0') == 1:
+                self.off(sub)
+                return []
             body = self.pat.lang_items(sub, strict=False)
             plo = max(lo - 1, 0)
+            multi = (hi is sre_c.MAXREPEAT) or hi > 1
+            if not multi:
+                return self.seq(sub, left, right_thunk)
             if hi is sre_c.MAXREPEAT:
                 pl = z3.Star(body) if plo == 0 else z3.Concat(z3.Loop(body, plo, plo), z3.Star(body))
             else:
-                pl = z3.Loop(body, plo, hi - 1) if hi - 1 > 0 else EPS
+                pl = z3.Loop(body, plo, hi - 1)
             prefix = self.fresh('rep_pre')
-            # snapshot groups before encoding last iteration to loosen optional ones
+            self.add(z3.InRe(prefix, pl))
             gids = self.group_ids(sub)
-            t, c = self.seq(sub, z3.Concat(left, prefix), right)
-            loose = []
-            multi = (hi is sre_c.MAXREPEAT) or hi > 1
-            if multi and gids:
-                # a group that did not take part in the last iteration may keep an earlier capture
-                for gid in gids:
-                    flag, txt, at = self.groups[gid]
-                    flag, txt, at = self.groups[gid]
-                    nflag = z3.Bool(fresh_name(f'g{gid}_on2'))
-                    ntxt = self.fresh(f'g{gid}_x')
-                    nat0 = z3.Int(fresh_name(f'g{gid}_at2'))
-                    nat = z3.If(flag, at, nat0)
-                    glang = self.group_lang(gid)
-                    loose.append(z3.Implies(flag, z3.And(nflag, ntxt == txt)))
-                    loose.append(z3.Implies(z3.And(z3.Not(flag), nflag),
-                                            z3.And(z3.InRe(ntxt, glang), z3.Length(prefix) > 0,
-                                                   nat >= z3.Length(left), nat + z3.Length(ntxt) <= z3.Length(left) + z3.Length(prefix))))
-                    self.groups[gid] = (nflag, ntxt, nat)
-            some = z3.And(part == z3.Concat(prefix, t), z3.InRe(prefix, pl), c, *loose)
-            if lo == 0:
-                zero2 = z3.And(part == z3.StringVal(''), self.no_groups(sub))
-                return z3.Or(zero2, some)
-            return some
+            last = self.seq(sub, z3.Concat(left, prefix), right_thunk)
+            for gid in gids:
+                on, txt, at = self.groups.get(gid, (False, None, None))
+                if not on:
+                    # may keep a capture from an earlier iteration: nondeterministic
+                    if ctx.choose(2, 'rx-oldcapture') == 1:
+                        ntxt = self.fresh(f'g{gid}_old')
+                        self.add(z3.InRe(ntxt, self.group_lang(gid)))
+                        self.add(z3.Contains(prefix, ntxt))
+                        nat = z3.Int(fresh_name(f'g{gid}_at'))
+                        self.add(z3.And(nat >= z3.Length(left), nat + z3.Length(ntxt) <= z3.Length(left) + z3.Length(prefix)))
+                        self.groups[gid] = (True, ntxt, nat)
+            return [prefix] + last
         if op is sre_c.AT:
-            return z3.And(part == z3.StringVal(''), self.at(av, left, right))
+            code = av
+            # the right context is only known once the whole match is assembled: defer
+            self.deferred.append((code, left, right_thunk))
+            return []
         if op in (sre_c.ASSERT, sre_c.ASSERT_NOT):
             direction, sub = av
             if self.pat.has_group(sub):
                 raise Unsupported("capturing group inside look-around")
-            lang = self.pat.lang_items(sub, strict=False)
-            if direction == 1:
-                m = z3.InRe(right, z3.Concat(lang, FULL))
-            else:
-                m = z3.InRe(left, z3.Concat(FULL, lang))
-            if op is sre_c.ASSERT_NOT:
-                if self.pat.has_assert(sub):
-                    m = z3.BoolVal(True)      # cannot negate an over-approximation: drop
-                else:
-                    m = z3.Not(m)
-            return z3.And(part == z3.StringVal(''), m)
+            self.deferred.append(((op, direction, sub), left, right_thunk))
+            return []
         raise Unsupported(f"regex item {op}")
+
+    deferred = None
+
+    def resolve_deferred(self):
+        for what, left, rt in self.deferred:
+            right = rt()
+            if isinstance(what, tuple):
+                op, direction, sub = what
+                lang = self.pat.lang_items(sub, strict=False)
+                m = z3.InRe(right, z3.Concat(lang, FULL)) if direction == 1 else z3.InRe(left, z3.Concat(FULL, lang))
+                if op is sre_c.ASSERT_NOT:
+                    if self.pat.has_assert(sub):
+                        continue      # cannot negate an over-approximation: drop the constraint
+                    m = z3.Not(m)
+                self.add(m)
+            else:
+                self.add(self.at(what, left, right))
 
     def group_lang(self, gid):
         def find(items):
@@ -505,27 +526,22 @@ class SymMatch:
             return wrap(self.m)
         if gid not in self.groups_:
             return None
-        flag, txt, at = self.groups_[gid]
-        f = z3.simplify(flag)
-        if z3.is_true(f):
-            return wrap(txt)
-        if z3.is_false(f):
-            return None
-        return SOpt(z3.Not(flag), SV(txt))
+        on, txt, at = self.groups_[gid]
+        return wrap(txt) if on else None
 
     def start_(self, ip, g=0):
         gid = self.gid(g)
         if gid == 0:
             return wrap(z3.Length(self.pre))
-        flag, txt, at = self.groups_[gid]
-        return wrap(z3.If(flag, at, -1))
+        on, txt, at = self.groups_[gid]
+        return wrap(at) if on else -1
 
     def end_(self, ip, g=0):
         gid = self.gid(g)
         if gid == 0:
             return wrap(z3.Length(self.pre) + z3.Length(self.m))
-        flag, txt, at = self.groups_[gid]
-        return wrap(z3.If(flag, at + z3.Length(txt), -1))
+        on, txt, at = self.groups_[gid]
+        return wrap(at + z3.Length(txt)) if on else -1
 
     def method(self, ip, name, args, kwargs, node):
         if name == 'group':
@@ -568,6 +584,9 @@ def sym_search(ip, pattern, subject, mode='search', pos=None, endpos=None, node=
     else:
         s = s_full
     W, exact = pat.search_lang(mode)
+    if exact and pat.icase and z3.is_app(s) and s.decl().name() in ('py_lower', 'py_upper'):
+        # a case-insensitive language is closed under ASCII case mapping (A-CLASS)
+        ip.ctx.assume(z3.InRe(s, W) == z3.InRe(s.arg(0), W))
     matched = ip.ctx.choose(2, 'rx-' + mode)
     if matched == 1:
         # no match
@@ -581,23 +600,32 @@ def sym_search(ip, pattern, subject, mode='search', pos=None, endpos=None, node=
         return None
     if exact:
         ip.ctx.assume(z3.InRe(s, W))
-    enc = Enc(pat, ip, s, None)
+    enc = Enc(pat, ip)
+    enc.deferred = []
     E = z3.StringVal('')
     pre = E if mode in ('match', 'fullmatch') else z3.String(fresh_name('rx_pre'))
     post = E if mode == 'fullmatch' else z3.String(fresh_name('rx_post'))
-    m, c = enc.seq(list(pat.tree), pre, post)
+    parts = enc.seq(list(pat.tree), pre, lambda: post)
+    m = z3.Concat(*parts) if len(parts) > 1 else (parts[0] if parts else E)
+    enc.resolve_deferred()
     if mode == 'fullmatch':
         mm = s
         ip.ctx.assume(s == m)
     else:
-        mm = z3.String(fresh_name('rx_m'))
-        ip.ctx.assume(mm == m)
-        ip.ctx.assume(s == z3.Concat(pre, mm, post))
-    ip.ctx.assume(c)
-    # groups that exist in the pattern but were never reached
+        mm = m
+        ip.ctx.assume(s == z3.Concat(pre, m, post))
+    for c in enc.cons:
+        ip.ctx.assume(c)
+    # a subject without upper-case letters (the library lower-cases before matching) has no upper-case part either
+    from .models import NOUPPER
+    if ip.ctx.term_in_star(s, NOUPPER):
+        for c in enc.cons:
+            if z3.is_app(c) and c.decl().kind() == z3.Z3_OP_SEQ_IN_RE and z3.is_const(c.arg(0)):
+                ip.ctx.assume(z3.InRe(c.arg(0), NOUPPER))
     for gid in range(1, pat.ngroups + 1):
-        enc.ensure_group(gid)
-    if not ip.ctx.feasible(z3.BoolVal(True)):
+        if gid not in enc.groups:
+            enc.groups[gid] = (False, E, z3.IntVal(-1))
+    if not ip.ctx.feasible_strong():
         from .ctx import PathInfeasible
         raise PathInfeasible()
     return SymMatch(pat, s, pre, mm, post, enc.groups, subject)
